@@ -39,7 +39,8 @@ def _data(sizes, width, kind="float"):
             ids = (e * 1000 + np.arange(n)).astype(float)
             cols = [ids] + [ids * (c + 2) + 0.5 for c in range(width - 1)]
             out.append(np.stack(cols, axis=1).astype(np.float32 if kind == "float32" else float))
-    return out
+    from props.gcommon import relayout            # C order, Fortran order or a strided view: the caller's choice
+    return [relayout(x, key=e + len(x)) for e, x in enumerate(out)]
 
 
 def _ratios(case):
